@@ -244,7 +244,8 @@ ALL_PROFILES = sorted({p["name"] for c in PROPS.values() for p in c["profiles"]}
 
 
 SIM_NOTE = ("Assumes: LMDB's own durability/isolation (real LMDB, no torn pages), the yield points as the granularity of interleaving "
-            "(every bucket call, every blocking wake-up, the sync-loop decision points and the windows around LS's transactions), "
+            "(every bucket call, every blocking wake-up, the sync-loop decision points, every LMDB transaction boundary - an instrumented copy of the lmdb-go wrapper - "
+            "and the windows around LS's transactions), "
             "sampling not enumeration: a clean batch is evidence, not proof.")
 
 MANIFEST_TEXT = {
@@ -263,12 +264,14 @@ MANIFEST_TEXT = {
             "note": SIM_NOTE, "technique": "deterministic simulation + reference decode of every uploaded snapshot against recorded LMDB images"},
     "C09": {"text": "Bounded liveness: whenever a sync loop has completed a full poll iteration without local disturbance, and at the end of the "
                     "fault-free drain, every locally originated version must be in the instance's newest snapshot; Store failures below the retry "
-                    "budget are injected.",
+                    "budget, forced snapshot intervals and an outside cleaner that removes an instance's snapshots during its start-up are injected.",
             "note": SIM_NOTE, "technique": "deterministic simulation + bounded-liveness oracle at idle points"},
     "C14": {"text": "Every value written by an LS transaction in any fleet run of the profile is parsed by an independent header parser "
                     "(version, flags, reserved, extension count, txn id of the writing transaction, empty value when deleted); malformed stored values "
-                    "are injected and must stop the instance with an error instead of being uploaded.",
-            "note": SIM_NOTE + " The universe of all byte strings is sampled only through what simulated applications store.",
+                    "are injected and must stop the instance with an error instead of being uploaded; header-sim puts arbitrary byte strings under the real LoadOnce "
+                    "(malformed => error and unchanged LMDB; well-formed, incl. extension blocks => last-writer-wins result stored well-formed); a foreign peer "
+                    "publishes entries with flag bits outside the synced set.",
+            "note": SIM_NOTE + " The universe of all byte strings is sampled by header-sim's generator (lengths 0..47, versions, extension counts up to 65535, plain bytes) and by what simulated applications and peers store.",
             "technique": "deterministic simulation + independent header parser as invariant, stored-byte faults"},
     "C04": {"text": "Delete-heavy fleet histories with restarts that re-merge old snapshots and, in a third of the runs, the tomb sweeper under generated "
                     "retention/load-cutoff configurations on the fake clock; per-transaction oracle 'a stored deletion is only replaced by a version above it', "
@@ -325,8 +328,8 @@ MANIFEST_TEXT = {
                     "climit and the global storage with real goroutines, quiescence detected from goroutine dumps; a goroutine still blocked after everything was closed, cancelled "
                     "and released is reported with the states of the goroutines involved; the same schedules also run statement by statement inside utils/climit, utils/topics and snapshot/storage "
                     "(a scratch copy of the working tree instrumented with a yield before every statement; the tape picks which goroutine moves next). Cancellation: graceful context cancels are generated at arbitrary yields of running instances "
-                    "(incl. start-up, under storage faults); Sync must return before its loop has passed 150 further yield points.",
-            "note": SIM_NOTE + " The race part covers executed interleavings only; conc-sim uses wall-clock polling of goroutine states outside the fake clock.",
+                    "(incl. start-up, under storage faults); Sync must return before its loop has passed 400 further yield points; at the end of every fleet run all instances are cancelled and no goroutine of theirs may remain blocked in repository code.",
+            "note": SIM_NOTE + " The race part covers executed interleavings only; conc-inst detects quiescence by polling goroutine states (real runtime between its yields: a tape has a few variants, violations are confirmed by up to 16 replays and not minimised).",
             "technique": "deterministic simulation in the -race build (scheduler hand-off hidden from the detector) + API-level and statement-level (go/ast-instrumented scratch copy) schedule simulation of the concurrency primitives with goroutine-dump quiescence"},
     "C15": {"text": "Names travel the real path: a real syncer with an arbitrary raw instance name uploads at simulated instants, an independent parser and ParseName must agree on the "
                     "stored names (round trip, safe alphabet, order = time), a real receiver among foreign and near-miss objects must pick exactly the newest; plus a seeded build/parse sweep "
